@@ -14,7 +14,25 @@ Fixpoint fget (k : bytes) (l : list (bytes * bytes)) : option bytes :=
 
 (* ---------- the typed commands the replayer instantiates (harness: enum Any) ---------- *)
 
-Inductive anyc := AUpd (uri : bytes) | AResc (uri : bytes) | AStop.
+(* AlbumArt::from_frame: None = no binary; Some (Some ..) decoded; Some None = typed error *)
+Definition art_decode (f : frame) : option (option (N * option bytes * bytes)) :=
+  match f_binary f with
+  | None => None
+  | Some data =>
+    Some match fget (b "size") (f_fields f) with
+         | None => None
+         | Some v => match parse_uint 64 v with
+                     | Some n => Some (n, fget (b "type") (f_fields f), data)
+                     | None => None
+                     end
+         end
+  end.
+
+
+(* the checksum the replayer prints for a picture chunk decoded inside a typed list *)
+Definition data_sum (d : bytes) : N := fold_left (fun a x => (a * 31 + x) mod 4294967296) d (N.of_nat (length d)).
+
+Inductive anyc := AUpd (uri : bytes) | AResc (uri : bytes) | AStop | AArt (uri : bytes).
 
 (* the raw command line (without LF); None = Command::argument panics (LF / NUL in the string) *)
 Definition any_line (c : anyc) : option bytes :=
@@ -22,12 +40,18 @@ Definition any_line (c : anyc) : option bytes :=
   | AUpd u => match add_str (b "update") u with (None, l) => Some l | _ => None end
   | AResc u => match add_str (b "rescan") u with (None, l) => Some l | _ => None end
   | AStop => Some (b "stop")
+  | AArt u => match add_str (b "albumart") u with (None, l) => Some (l ++ [SP] ++ render_dec 0) | _ => None end
   end.
 
 (* Command::response: None = TypedResponseError; Some None = unit reply; Some (Some n) = job id *)
 Definition any_response (c : anyc) (f : frame) : option (option N) :=
   match c with
   | AStop => Some None
+  | AArt _ => match art_decode f with
+              | None => Some None                                   (* no binary part: no picture *)
+              | Some (Some (_, _, data)) => Some (Some (data_sum data))
+              | Some None => None                                   (* binary without a size: typed error *)
+              end
   | _ => match fget (b "updating_db") (f_fields f) with
          | None => None
          | Some v => match parse_uint 64 v with Some n => Some (Some n) | None => None end
@@ -124,20 +148,6 @@ Definition art_request (st : art_state) : option bytes :=
   match add_str word (a_uri st) with
   | (None, l) => Some (l ++ [SP] ++ render_dec off)
   | _ => None
-  end.
-
-(* AlbumArt::from_frame: None = no binary; Some (Some ..) decoded; Some None = typed error *)
-Definition art_decode (f : frame) : option (option (N * option bytes * bytes)) :=
-  match f_binary f with
-  | None => None
-  | Some data =>
-    Some match fget (b "size") (f_fields f) with
-         | None => None
-         | Some v => match parse_uint 64 v with
-                     | Some n => Some (n, fget (b "type") (f_fields f), data)
-                     | None => None
-                     end
-         end
   end.
 
 (* while out.len() < expected_size *)
